@@ -24,6 +24,16 @@ def replay(o, scratch):
         be = o.get("backend")
         w = [l for l in lines if l.startswith("clear ")][-1].split(" ")
         cfg = o.get("config") or "111"
+        if o.get("probes"):
+            n = o["probes"]
+            pa = [x[0] for x in corr.replay_impl(scratch, lines, backend=be)[-n:]]
+            pb = [x[0] for x in corr.replay_impl(scratch, ["init %s %s %s %s" % (be or "file", w[1], w[2], cfg)] + lines[-n:])[1:]]
+            for q, x, y in zip(lines[-n:], pa, pb):
+                if x != y:
+                    print("FAILS at:", q[:200]); print("  cleared:", x[:300]); print("  fresh  :", y[:300])
+                    return 1
+            print("PASSES")
+            return 0
         a = corr.replay_impl(scratch, lines, backend=be)[-1][0]
         b = corr.replay_impl(scratch, ["init %s %s %s %s" % (be or "file", w[1], w[2], cfg), "dump"])[-1][0]
         print("FAILS: cleared index differs from a fresh one" if a != b else "PASSES")
@@ -100,11 +110,16 @@ def replay(o, scratch):
         from .extra import CUT_OBSERVERS
         im = Impl(scratch)
         try:
+            from . import impl as _impl
+            del _impl.PHYS_LOG[:]
+            _impl.PHYS_ACTIVE[0] = bool(o.get("physical"))
             for l in lines:
                 im.exec(l)
+            _impl.PHYS_ACTIVE[0] = False
+            im.phys_snapshot = list(_impl.PHYS_LOG)
             k, j = o["cut"]
-            a = im.exec("cut %d %d" % (k, j))[0]
-            print("cut after %d writes + %d bytes ->" % (k, j), a)
+            a = im.exec("%s %d %d" % ("cutp" if o.get("physical") else "cut", k, j))[0]
+            print("cut after %d %swrites + %d bytes ->" % (k, "physical " if o.get("physical") else "", j), a)
             bad = a not in ("ok", "err traph")
             if a == "ok":
                 for q in CUT_OBSERVERS:
